@@ -77,6 +77,15 @@ class IncludeNode(Node):
             # Not every object can be converted to a string. A very long integer, say.
             raise LiquidValueError(str(err), token=self.name.token) from err
 
+    def _length(self, val: Sequence[object]) -> int:
+        try:
+            return len(val)
+        except OverflowError as err:
+            # A range that is longer than the interpreter's `len` can report.
+            raise LiquidValueError(
+                f"'{self.var}' is too big", token=self.token
+            ) from err
+
     def render_to_output(self, context: RenderContext, buffer: TextIO) -> int:
         """Render the node to the output buffer."""
         name = self.name.evaluate(context)
@@ -103,10 +112,10 @@ class IncludeNode(Node):
                 key = self.alias or template.name.split(".")[0]
 
                 if isinstance(val, Sequence) and not isinstance(val, str):
-                    context.raise_for_loop_limit(len(val))
+                    context.raise_for_loop_limit(self._length(val))
                     # Loops in the included template are nested in this one.
                     carry = context.loop_iteration_carry
-                    context.loop_iteration_carry = carry * len(val)
+                    context.loop_iteration_carry = carry * self._length(val)
                     try:
                         for itm in val:
                             namespace[key] = itm
@@ -157,10 +166,10 @@ class IncludeNode(Node):
                 key = self.alias or template.name.split(".")[0]
 
                 if isinstance(val, Sequence) and not isinstance(val, str):
-                    context.raise_for_loop_limit(len(val))
+                    context.raise_for_loop_limit(self._length(val))
                     # Loops in the included template are nested in this one.
                     carry = context.loop_iteration_carry
-                    context.loop_iteration_carry = carry * len(val)
+                    context.loop_iteration_carry = carry * self._length(val)
                     try:
                         for itm in val:
                             namespace[key] = itm
